@@ -164,7 +164,7 @@ func stateModelClosed(e *Engine, id string, keep func(string) bool) {
 						}
 					}
 				}
-				if !found && val != nil && builtInPlace(val) {
+				if !found && val != nil && (builtInPlace(val) || e.freshlyBuilt(val)) {
 					e.walkLocal(st.role, a.Fn, 2, func(in ssa.Instruction, _ []callCtx) {
 						var fv *types.Var
 						switch x := in.(type) {
@@ -286,6 +286,23 @@ func builtInPlace(v ssa.Value) bool {
 		return builtInPlace(x.X)
 	}
 	return false
+}
+
+// freshlyBuilt: every origin of the value is a container made on the spot (a slice grown by append in a loop, a map
+// filled entry by entry): its contents are what the building code reads.
+func (e *Engine) freshlyBuilt(v ssa.Value) bool {
+	os := e.origins(v)
+	if len(os) == 0 {
+		return false
+	}
+	for _, o := range os {
+		switch {
+		case o == "fresh-slice" || o == "fresh-map" || o == "alloc" || strings.HasPrefix(o, "const:"):
+		default:
+			return false
+		}
+	}
+	return true
 }
 
 func uniqStrings(in []string) []string {
